@@ -413,7 +413,7 @@ fn random_long(t: &mut Trace, rng: &mut Rng, thorough: bool) {
 }
 
 pub fn run(t: &mut Trace, rng: &mut Rng, thorough: bool) {
-    t.rule = "regression corpus (D3, D5); all strings over {a,b} up to length 3 (thorough 4) plus 6 strings with code points 0 and 0x2FFFF: every unary op (at/substr with every i,n in [-2,len+2] ∪ {i32::MIN,i32::MAX}), every binary op on every ordered pair (indexof with every such i, naive_search at every k in [0,len+2]), replace/replace_all on every triple of {a,b}-strings; digit strings around 2^31 and 2^32 with leading zeros and a non-digit at every position, from_int/from_code at the range ends with their round trips; seeded random longer strings with planted, repeated and overlapping occurrences. Every line is keyed by its operation text (distinct by construction) and counted non-trivial".into();
+    t.rule = "regression corpus (D3, D5); all strings over {a,b} up to length 3 (thorough 4) plus 6 strings with code points 0 and 0x2FFFF: every unary op (at/substr with every i,n in [-2,len+2] ∪ {i32::MIN,i32::MAX}), every binary op on every ordered pair (indexof with every such i, naive_search at every k in [0,len+2]), replace/replace_all on every triple of {a,b}-strings; digit strings around 2^31 and 2^32 with leading zeros and a non-digit at every position, from_int/from_code at the range ends with their round trips; seeded random longer strings with planted, repeated and overlapping occurrences; a string of 21846 (thorough: also 32768 and 33001) high code points (sum of the codes >= 2^32) with a short tail, searched and replaced. Every line is keyed by its operation text (distinct by construction) and counted non-trivial".into();
     corpus(t);
     let max_len = if thorough { 4 } else { 3 };
     let ab = all_ab(max_len);
@@ -456,6 +456,31 @@ pub fn run(t: &mut Trace, rng: &mut Rng, thorough: bool) {
     random_long(t, rng, thorough);
     overlap_stress(t, rng, thorough);
     alias_alphabet(t, thorough);
+    heavy(t, thorough);
+}
+
+/// Tens of thousands of high code points followed by a short tail: any accumulator over the
+/// characters of a string (sums, hashes, counters kept in 16 or 32 bits) overflows only here.
+fn heavy(t: &mut Trace, thorough: bool) {
+    // the model's search is quadratic on such strings: one case in the quick tier
+    let cases: &[(usize, u32)] = if thorough { &[(21846, MAX_CHAR), (32768, 0x20000), (33001, 0x2FF00)] } else { &[(21846, MAX_CHAR)] };
+    for &(n, c) in cases {
+        let mut v: Vec<u32> = vec![c; n];
+        v.extend_from_slice(&[120, 121, 122]);
+        let s = mk(&v);
+        let pat = mk(&[120, 121, 122]);
+        let pat2 = mk(&[c, 120]);
+        let absent = mk(&[121, 120]);
+        t.count("heavy");
+        for p in [&pat, &pat2, &absent] {
+            op_bool2(t, "contains", str_contains, &s, p);
+            op_indexof(t, &s, p, 0);
+            op_indexof(t, &s, p, 5);
+            op_bool2(t, "suffixof", str_suffixof, p, &s);
+        }
+        op_replace(t, &s, &pat, &mk(&[65]));
+        op_replace(t, &s, &absent, &mk(&[65]));
+    }
 }
 
 /// Code points that alias modulo 2^8 / 2^16 (97, 97+256, 97+512, 97+65536) together with an
